@@ -38,6 +38,43 @@ def compositionSampled (f g r : Arr) (n x : Nat) : Bool :=
     let gv := evalArr g v
     evalArr r v == evalArr f (fun y => if y = x then gv else v y)
 
+/-- EXACT test of `r(v) = f(v[x := g v])` for valid diagrams of any width: memoised simultaneous walk over
+    `(p in r, a in f with x := 1, c in f with x := 0, q in g)`; when all four are terminals the identity reads
+    `p = if q then a else c`. `none` = more than `budget` states (inconclusive, the sampled test decides). -/
+def compositionExact (f g r : Arr) (x budget : Nat) : Option Bool := Id.run do
+  let inf := 1000000
+  let skipX := fun (a : Nat) (hi : Bool) =>
+    if a < 2 then a else
+      let nd := f[a]?.getD default
+      if nd.var == x then (if hi then nd.high else nd.low) else a
+  let varAt := fun (A : Arr) (a : Nat) => if a < 2 then inf else (A[a]?.getD default).var
+  let step := fun (A : Arr) (a d : Nat) (β : Bool) =>
+    if a < 2 then a else
+      let nd := A[a]?.getD default
+      if nd.var == d then (if β then nd.high else nd.low) else a
+  let mut stack : Array (Nat × Nat × Nat × Nat) := #[(root r, root f, root f, root g)]
+  let mut seen : Std.HashSet (Nat × Nat × Nat × Nat) := {}
+  for _ in [0:3 * budget + 8] do
+    match stack.back? with
+    | none => return some true
+    | some (p, a0, c0, q) =>
+      stack := stack.pop
+      let a1 := skipX a0 true
+      let c1 := skipX c0 false
+      -- once `g` is decided only one branch of `f` matters
+      let a := if q == 0 then c1 else a1
+      let c := if q == 1 then a1 else c1
+      if seen.contains (p, a, c, q) then continue
+      seen := seen.insert (p, a, c, q)
+      if seen.size > budget then return none
+      if p < 2 && a < 2 && c < 2 && q < 2 then
+        if p != (if q == 1 then a else c) then return some false
+      else
+        let d := min (min (varAt r p) (varAt f a)) (min (varAt f c) (varAt g q))
+        stack := (stack.push (step r p d false, step f a d false, step f c d false, step g q d false)).push
+          (step r p d true, step f a d true, step f c d true, step g q d true)
+  return (if stack.isEmpty then some true else none)
+
 /-- the variables some decision node of the given diagrams is labelled with, plus `x` (no duplicates) -/
 def usedVars (As : List Arr) (x : Nat) : List Nat :=
   (As.flatMap fun A => (A.toList.drop 2).map (·.var)).foldl (fun acc y => if acc.contains y then acc else acc ++ [y]) [x]
@@ -75,7 +112,11 @@ def handle (key : String) (ins obs : List String) : Verdict :=
               (match compositionHolds f g r x with
                | some false => some "not-the-composition"
                | some true => none
-               | none => if compositionSampled f g r n x then none else some "not-the-composition(sampled)")
+               | none =>
+                 match compositionExact f g r x 6000000 with
+                 | some false => some "not-the-composition(exact walk)"
+                 | some true => none
+                 | none => if compositionSampled f g r n x then none else some "not-the-composition(sampled)")
             else
               if (List.range (2 ^ n)).all fun i =>
                 let v := valOfIndex n i
